@@ -168,10 +168,23 @@ class C14(Property):
                     for typed, kind in rng.sample(typed_opts, min(3, len(typed_opts))):
                         tail = list(typed) if isinstance(typed, tuple) else [typed]
                         argv = gen.flatten(before) + [t.encode() for t in tail]
-                        cases.append(Case("g%d" % k, opts, argv, mode="comp 0",
-                                          tags={"kind": kind, "typed": tail[-1], "level": lvl, "given": [id(p.chunk.node) for p in before if p.kind == "chunk"],
-                                                "levels": lv_opts, "awaiting": isinstance(typed, tuple)}))
+                        tg = {"kind": kind, "typed": tail[-1], "level": lvl, "given": [id(p.chunk.node) for p in before if p.kind == "chunk"],
+                              "levels": lv_opts, "awaiting": isinstance(typed, tuple)}
+                        cases.append(Case("g%d" % k, opts, argv, mode="comp 0", tags=tg))
                         k += 1
+                        r = rng.random()
+                        if r < 0.12:
+                            # the request written on the line itself (what the shell stubs do): `--bpaf-complete-rev=0` as an item of
+                            # its own, at any position left of `--`; it is no item of the line, the outcome must be the same
+                            lim = argv.index(b"--") if b"--" in argv else len(argv)
+                            at = rng.randrange(0, lim + 1) if rng.random() < 0.7 else 0
+                            marked = argv[:at] + [b"--bpaf-complete-rev=0"] + argv[at:]
+                            cases.append(Case("g%d" % k, opts, marked, mode="parse", tags=dict(tg, marker=at)))
+                            k += 1
+                        elif r < 0.22:
+                            # the other output revisions: differential only (the shells' formats are C15's subject)
+                            cases.append(Case("g%d" % k, opts, argv, mode="comp %d" % rng.choice([1, 7, 8, 9]), tags={"rev": True}))
+                            k += 1
         return cases
 
     def execute(self, cases):
@@ -227,7 +240,7 @@ class C14(Property):
             prefix = rng.choice(["na", "na", "(s %d)" % ord(rng.choice("aé")), "(l %s)" % gen.hx(rng.choice(["alpha", "é"]))])
             self.comps_lines.append("(comps cp%d (hints %s) (arg %s) (pos %s) (named %s) (prefix %s))"
                                     % (i, " ".join(hints), gen.hx(arg), rng.choice("001"), rng.choice("01"), prefix))
-        model = infra.run_model(self.filter_lines + self.comps_lines)
+        model = infra.run_model(lines + self.filter_lines + self.comps_lines)
         impl = infra.run_driver(lines + self.filter_lines + self.comps_lines)
         return model, impl
 
@@ -248,11 +261,21 @@ class C14(Property):
             elif len(m) > 1 and m[1]:
                 nonempty += 1
         dist["hint_lists_with_candidates"] = nonempty
+        dist["requests_by_marker_on_the_line"] = sum(1 for c in cases if "marker" in c.tags)
+        dist["other_output_revisions"] = sum(1 for c in cases if "rev" in c.tags)
+        exact_n = 0
         for c in cases:
             ic = impl.get(c.id)
             t = c.tags
+            # the first stage (Model/CompEval.v: which hints every parser pushes) + the second + the renderer: the text of
+            # the completion output is compared byte for byte
+            mc = model.get(c.id)
+            if mc != ic:
+                out.append(Finding("disagree", c, "completion output: model %r vs implementation %r" % (mc, ic)))
+            else:
+                exact_n += 1
             if "kind" not in t:
-                continue            # a replayed line: only the differential part applies
+                continue            # a replayed line / another output revision: only the differential part applies
             dist[t["kind"]] = dist.get(t["kind"], 0) + 1
             if ic is None or ic[0] != "COMP":
                 out.append(Finding("violation", c, "completion was requested (last item %r) but the outcome is %s" % (t["typed"], common.show(ic))))
@@ -355,6 +378,7 @@ class C14(Property):
                          "alternatives, adjacent groups, subcommands) x every kind of partially typed line: a prefix of a generated "
                          "sentence followed by ``, `-`, `--`, a long-name prefix, a command-name prefix, `--name` + `` / `al`, `--name=b`; "
                          "completion revision 0; oracle computed from the definition's AST; non-trivial = completion output obtained"}
+        dist["completion_text_equal_to_the_model_byte_for_byte"] = exact_n
         return out, stats
 
     @staticmethod
